@@ -128,15 +128,17 @@ class Executor(object):
         """evaluate a spec expression (string) to a z3 Bool / value in state st"""
         node = self.fx.session.parse_spec(expr_src)
         ev = self.ev
-        saved = (ev.spec, ev.guards, ev.bound)
+        saved = (ev.spec, ev.guards, ev.bound, getattr(ev, "_memo", None))
         ev.spec, ev.guards = True, []
+        if saved[3] is None:
+            ev._memo = {}
         if extra_env:
             ev.bound = dict(ev.bound)
             ev.bound.update(extra_env)
         try:
             return ev.ev(node, st)
         finally:
-            ev.spec, ev.guards, ev.bound = saved
+            ev.spec, ev.guards, ev.bound, ev._memo = saved
 
     def spec_bool(self, expr_src, st, extra_env=None):
         v = self.spec(expr_src, st, extra_env)
@@ -556,6 +558,11 @@ class Executor(object):
             if not isinstance(seq.t, TSeq):
                 raise Outside("for over %s" % seq.t)
             o = seq.t.ops(cx)
+            if lc.get("seq"):
+                # ghost name for the iterated sequence (evaluated once, before the first iteration)
+                if not lc["seq"].startswith("g_"):
+                    raise AttachError("the iterated sequence's ghost name must be g_*")
+                st.env[lc["seq"]] = seq
         pre_exc = list(ev.exc_out)
         ev.exc_out = []
         idx = lc.get("index", "g_i%d" % ordn)
